@@ -231,6 +231,23 @@ fn check_reader(c: i32) -> Result<(), Fail> {
         }
         // invalid record code
         enc.shp[108..112].copy_from_slice(&c.to_le_bytes());
+        // ... read through the index as well: iteration, the collecting read and random access all fail with that code
+        {
+            let open = || ShapeReader::with_shx(Cursor::new(enc.shp.clone()), Cursor::new(enc.shx.clone())).map_err(|e| Fail::new("open-error", format!("{:?}", e)));
+            let first = open()?.iter_shapes().next();
+            match first {
+                Some(Err(Error::InvalidShapeType(x))) if x == c => {}
+                other => return Err(Fail::new("wrong-error", format!("record with code {} through with_shx(..).iter_shapes(): {:?}", c, other.map(|r| r.map(|s| variant_ty(&s)))))),
+            }
+            match open()?.read() {
+                Err(Error::InvalidShapeType(x)) if x == c => {}
+                other => return Err(Fail::new("wrong-error", format!("record with code {} through with_shx(..).read(): {:?}", c, other.map(|v| v.len())))),
+            }
+            match open()?.read_nth_shape(0) {
+                Some(Err(Error::InvalidShapeType(x))) if x == c => {}
+                other => return Err(Fail::new("wrong-error", format!("record with code {} through with_shx(..).read_nth_shape(0): {:?}", c, other.map(|r| r.map(|s| variant_ty(&s)))))),
+            }
+        }
         let mut r = ShapeReader::new(Cursor::new(enc.shp)).map_err(|e| Fail::new("open-error", format!("{:?}", e)))?;
         let first = r.iter_shapes().next();
         match first {
